@@ -48,7 +48,10 @@ impl Xo {
 
 pub enum Source {
     Search(Xo),
-    Replay { seq: Vec<u32>, pos: usize },
+    /// block-structured replay: every `mark()` moves to the next recorded block, so an
+    /// edit inside one block (a scheduler step, one node's configuration) never shifts
+    /// the meaning of the choices in the blocks after it
+    Replay { blocks: Vec<Vec<u32>>, bi: usize, pos: usize, started: bool },
 }
 
 pub struct Chooser {
@@ -57,7 +60,7 @@ pub struct Chooser {
     pub rec: Vec<u32>,
     /// positions in `rec` at which a top-level scheduler step begins
     pub marks: Vec<u32>,
-    /// position where the configuration ends and the steps begin
+    /// number of blocks that belong to the configuration (the steps follow)
     pub cfg_end: u32,
     /// hard cap on draws per run (a run that hits it is stopped, not failed)
     pub cap: usize,
@@ -73,9 +76,9 @@ impl Chooser {
             cap: 20_000,
         }
     }
-    pub fn replay(seq: Vec<u32>) -> Chooser {
+    pub fn replay(blocks: Vec<Vec<u32>>) -> Chooser {
         Chooser {
-            src: Source::Replay { seq, pos: 0 },
+            src: Source::Replay { blocks, bi: 0, pos: 0, started: false },
             rec: Vec::with_capacity(256),
             marks: Vec::new(),
             cfg_end: 0,
@@ -96,6 +99,10 @@ impl Chooser {
             }
             return 0;
         }
+        if self.rec.len() >= self.cap {
+            self.rec.push(0);
+            return 0;
+        }
         let v = match &mut self.src {
             Source::Search(x) => {
                 if self.rec.len() >= self.cap {
@@ -104,8 +111,11 @@ impl Chooser {
                     ((x.next() >> 32) * n as u64 >> 32) as u32
                 }
             }
-            Source::Replay { seq, pos } => {
-                let v = if *pos < seq.len() { seq[*pos] % n } else { 0 };
+            Source::Replay { blocks, bi, pos, .. } => {
+                let v = match blocks.get(*bi) {
+                    Some(b) if *pos < b.len() => b[*pos] % n,
+                    _ => 0,
+                };
                 *pos += 1;
                 v
             }
@@ -145,8 +155,11 @@ impl Chooser {
                     k
                 }
             }
-            Source::Replay { seq, pos } => {
-                let v = if *pos < seq.len() { seq[*pos] as usize % w.len() } else { 0 };
+            Source::Replay { blocks, bi, pos, .. } => {
+                let v = match blocks.get(*bi) {
+                    Some(b) if *pos < b.len() => b[*pos] as usize % w.len(),
+                    _ => 0,
+                };
                 *pos += 1;
                 first_nonzero(w, v)
             }
@@ -175,8 +188,26 @@ impl Chooser {
             _ => self.choose(max + 1),
         }
     }
+    /// start a new block (call at the start of every block, including the first)
     pub fn mark(&mut self) {
         self.marks.push(self.rec.len() as u32);
+        if let Source::Replay { bi, pos, started, .. } = &mut self.src {
+            if *started {
+                *bi += 1;
+            }
+            *started = true;
+            *pos = 0;
+        }
+    }
+    /// the recorded sequence cut into its blocks
+    pub fn blocks_of(rec: &[u32], marks: &[u32]) -> Vec<Vec<u32>> {
+        let mut out = Vec::with_capacity(marks.len());
+        for (i, &m) in marks.iter().enumerate() {
+            let a = m as usize;
+            let b = if i + 1 < marks.len() { marks[i + 1] as usize } else { rec.len() };
+            out.push(rec[a.min(rec.len())..b.min(rec.len())].to_vec());
+        }
+        out
     }
 }
 
